@@ -25,6 +25,7 @@ def _load() -> None:
         "upgrade_read": (K.k_upgrade_read, K.replay_upgrade_read),
         "backoff": (K.k_backoff, K.replay_backoff),
         "flow_chunks": (K.k_flow_chunks, K.replay_flow_chunks),
+        "expiry": (K.k_expiry, K.replay_expiry),
         "h2_permits": (K.k_h2_permits, K.replay_h2_permits),
         "host_header": (lambda flavour=None: K.k_host_header(), lambda flavour, args: K.replay_host_header(args)),
     })
